@@ -53,7 +53,7 @@ class MayKnobs(nested.NKnobs):
         self.p_raise_other = 0.02     # per scripted invocation of any other callback but finalize
         self.p_on_exception = 0.5
         self.p_handler_raises = 0.06
-        self.p_cmd = 0.06             # per scripted invocation: the callback issues a may_ / trigger itself
+        self.p_cmd = 0.09             # per scripted invocation: the callback issues a may_ / trigger itself
         self.cmd_budget = 3
         self.max_handlers = 2
         self.single_stage = False     # truncate every callback stage to one callback (async classes comparable)
@@ -99,9 +99,6 @@ def gen_may(rng, kn):
     # script: conditions (deterministic or per invocation), raises, re-entrant commands
     cond_cbs = set(c for _s, _e, _i, t in d.all_trans() for c, _tg in t['conds'])
     budget = [kn.cmd_budget]
-    root_cbs = set(c for _e, ts in d.events for t in ts
-                   for c in list(t['prepare']) + [x for x, _tg in t['conds']] + list(t['before']) + list(t['after']))
-    cmd_mode = rng.choice(('root', 'may'))
     if kn.deterministic:
         d.script = {}
         for c in sorted(cond_cbs):
@@ -121,19 +118,12 @@ def gen_may(rng, kn):
             elif slot not in EVAL_SLOTS and slot not in (SLOT['finalize_event'], SLOT['on_exception']) \
                     and rng.random() < kn.p_raise_other:
                 out = ('raise', 3, 8)
-            if budget[0] > 0 and slot != SLOT['finalize_event'] and (cmd_mode == 'may' or c in root_cbs) \
-                    and rng.random() < kn.p_cmd * (3 if cmd_mode == 'root' else 1):
-                # re-entrant TRIGGER commands must only be issued while the machine is in its own scope and no on_enter /
-                # on_exit callback is running.  Elsewhere the engine is not re-entrant for triggers, for reasons that have
-                # nothing to do with may_ and are not modelled: while an on_enter / on_exit callback runs,
-                # NestedState._scope changes the `name` of that state object (a re-entrant trigger that re-enters it builds
-                # its tree from `state.name`), and `_trigger_event` calls `_check_event_result` outside its `with self():`
-                # block, i.e. in the scope of the state whose local transition is being evaluated.  Hence two kinds of
-                # descriptions: 'root' — commands (may_ and trigger) only from the prepare / conditions / before / after
-                # callbacks of transitions declared on the machine (these run in the machine's scope, also when the
-                # evaluating may_ / trigger was itself issued by such a callback); 'may' — may_ commands from every
-                # callback, no trigger commands.
-                kind = rng.choice((MAY, TRIGGER)) if cmd_mode == 'root' else MAY
+            if budget[0] > 0 and slot != SLOT['finalize_event'] and rng.random() < kn.p_cmd:
+                # re-entrant may_ AND trigger commands from every callback (also on_enter / on_exit callbacks and callbacks
+                # of locally declared transitions, which run while the machine is scoped into a state): since the repairs
+                # 4b06f60 (`_enter_nested` files a state under its plain name) and 84867c8 (`_check_event_result` inside
+                # `with self():`) the engine is re-entrant for triggers and the scope-free model agrees with it
+                kind = rng.choice((MAY, MAY, TRIGGER))
                 ev = rng.choice(known or [0]) if rng.random() > 0.05 else unknown
                 cmds.append((kind, 0, ev))
                 budget[0] -= 1
@@ -532,6 +522,14 @@ def stats(st, d, run, deterministic, ntw, ntrue):
                 bump('nested_outcomes', who + ':' + ('true' if it[2] else 'false'))
             else:
                 bump('nested_outcomes', who + ':raised:' + common.EXC_NAMES[min(it[2], 6)])
+    stack = []
+    for it in run.items:
+        if it[0] == 'call':
+            stack.append(it[1])
+        elif it[0] == 'done' and stack:
+            stack.pop()
+        elif it[0] == 'api' and stack:
+            bump('nested_reentrant_from', ('may' if it[1] == MAY else 'trigger') + '@' + common.SLOTS[stack[-1]])
     bump('nested_raising_callbacks', 'n', sum(1 for it in run.items if it[0] == 'done' and it[2] == 1))
     bump('nested_handler_calls', 'n', sum(1 for it in run.items if it[0] == 'call' and it[1] == SLOT['on_exception']))
     if deterministic:
